@@ -151,6 +151,11 @@ func (c10) runCLI(seed int64, idx int) Outcome {
 			o.Detail = fmt.Sprintf("in-process generation failed: %v %v", gerr, pan)
 			return o
 		}
+		if res.TimedOut || res.Signal != "" {
+			o.Status = "inconclusive"
+			o.Detail = fmt.Sprintf("CLI run ended by a resource limit (timed out %v, signal %q, %.1f CPU-s)", res.TimedOut, res.Signal, res.CPU)
+			return o
+		}
 		if res.Exit != 0 || err != nil {
 			o.Status = "violated"
 			o.Detail = fmt.Sprintf("the library accepts this text but `yaccgo generate %v` on a file with the same bytes fails (exit %d): %s\nlongest line: %d bytes", variant, res.Exit, trunc(res.Out, 400), maxLine)
